@@ -24,6 +24,7 @@
 #include <tbox/base/defines.h>
 
 #include "buffer.h"
+#include <limits>
 
 namespace tbox {
 namespace util {
@@ -107,6 +108,10 @@ bool Buffer::ensureWritableSize(size_t write_size)
         return true;
 
     } else {    //! 只有重新分配更多的空间才可以
+        //! (write_index_ + write_size) << 1 不能回绕，否则会分配出过小的空间却返回成功
+        if (write_size > ((std::numeric_limits<size_t>::max() >> 1) - write_index_))
+            return false;
+
         size_t new_size = (write_index_ + write_size) << 1;  //! 两倍扩展
         uint8_t *p_buff = new uint8_t[new_size];
         if (p_buff == nullptr)
